@@ -171,12 +171,12 @@ theorem invert_usesQ (w : W) (hq : w.bwd.usesQ = true) (args : List Arg) : w.inv
   split <;> simp [hq]
 
 /-- **values interface, backward** -/
-theorem world_values_agree (w : W) (hq : w.bwd.usesQ = true) (hq' : w.fwd.usesQ = true) (wf : w.bwd.WF w.worldU w.pixU)
+theorem world_values_agree (w : W) (hq : w.bwd.usesQ = true) (wf : w.bwd.WF w.worldU w.pixU)
     (world : List Rat) (hl : world.length = w.worldU.length) :
     w.worldToPixelValues world = .ok (scaleBy w.bwd.outU w.pixU (w.bwd.f (scaleBy w.worldU w.bwd.inU world)))
     ∧ w.twin.worldToPixelValues world = w.worldToPixelValues world := by
   have h1 : w.worldToPixelValues world = .ok (scaleBy w.bwd.outU w.pixU (w.bwd.f (scaleBy w.worldU w.bwd.inU world))) := by
-    simp only [W.worldToPixelValues, addUnitsInput, hq, hq', ↓reduceIte, removeQuantityOutput, invert_usesQ w hq]
+    simp only [W.worldToPixelValues, addUnitsInput, hq, ↓reduceIte, removeQuantityOutput, invert_usesQ w hq]
     rw [Tr.eval_qtys _ hq wf.convIn _ hl]
     show zipM stripOrKeep _ _ = _
     apply zipM_stripOrKeep_qtys wf.convOut
@@ -211,19 +211,20 @@ theorem zipM_stripOrKeep_bare : ∀ (vals : List Rat) (us : List U), vals.length
 
 /-- **a user-supplied unit-free inverse next to a unit-carrying forward transform is honoured as given**: bare world numbers
 (frame units) go straight to it, and the values interface returns its pixels as bare numbers -/
-theorem mixed_world_values (w : W) (hb : w.bwd.usesQ = false) (world : List Rat)
-    (hlen : (w.bwd.f world).length = w.pixU.length) :
+theorem mixed_world_values (w : W) (hb : w.bwd.usesQ = false) (world : List Rat) :
     w.worldToPixelValues world = .ok (w.bwd.f world) := by
   have hinv : w.invert (world.map Arg.bare) = w.bwd.eval (world.map Arg.bare) := by
     unfold W.invert; cases world <;> simp
   simp only [W.worldToPixelValues, addUnitsInput, hb, Bool.false_eq_true, ↓reduceIte, hinv, Tr.eval_bare _ hb, removeQuantityOutput]
-  cases hf : w.fwd.usesQ
-  · simp only [Bool.false_eq_true, ↓reduceIte]
-    show ((List.map Arg.bare _).mapM unBare) = _
-    rw [mapM_unBare_bare]
-  · simp only [↓reduceIte]
-    show zipM stripOrKeep _ _ = _
-    exact zipM_stripOrKeep_bare _ _ hlen
+  show ((List.map Arg.bare _).mapM unBare) = _
+  rw [mapM_unBare_bare]
+
+/-- **the other mix: a unit-free forward transform with a user-supplied unit-carrying inverse** - the values interface still returns
+bare numbers in the input frame's units, whatever the forward transform is (the strip follows the transform that produced the result) -/
+theorem mixed_rev_world_values (w : W) (hb : w.bwd.usesQ = true) (wf : w.bwd.WF w.worldU w.pixU)
+    (world : List Rat) (hl : world.length = w.worldU.length) :
+    w.worldToPixelValues world = .ok (scaleBy w.bwd.outU w.pixU (w.bwd.f (scaleBy w.worldU w.bwd.inU world))) :=
+  (world_values_agree w hb wf world hl).1
 
 /-- **world quantities in any convertible unit** invert, on a unit-free WCS, exactly like the bare
 numbers obtained by converting them to the frame units -/
@@ -474,5 +475,46 @@ theorem pixel_quantity_converted (w : W) (hq : w.fwd.usesQ = true) {us : List U}
   simp only [bind, Except.bind, W.callWithUnits]
   rw [Tr.eval_qtys w.fwd hq (h.trans hpu) vals hl, Tr.eval_qtys w.fwd hq hpu _ hl2,
     scaleBy_trans hlen hpu.length nz vals]
+
+end Gwcs.Units
+
+/-! ### scale-only unit-carrying transforms and `world_to_array_index` -/
+
+namespace Gwcs.Units
+
+/-- the array index through a scale-only backward transform, in closed form: the world value is taken in the transform's unit,
+scaled, read in the pixel unit and rounded -/
+theorem arrayIndexScaleOnly_eq (k v : Rat) (s inU outU pixU : U) (hd : s.dim = inU.dim) (hp : outU.dim = pixU.dim) :
+    arrayIndexScaleOnly k inU outU pixU (.qty v s) =
+      .ok ((k * v * (outU.scale * s.scale / inU.scale) / pixU.scale + 1 / 2).floor) := by
+  simp [arrayIndexScaleOnly, evalScaleOnly, hd, toFrame, convert, toValue, hp, magnitude, bind, Except.bind, Except.map, pure, Except.pure]
+
+/-- **the array index does not depend on the unit the world value is given in**: two spellings of the same physical quantity
+(`v * s.scale = v' * s'.scale`) give the same index, although the backward transform converts nothing -/
+theorem array_index_unit_independent (k v v' : Rat) (s s' inU outU pixU : U) (hd : s.dim = inU.dim) (hd' : s'.dim = inU.dim)
+    (hp : outU.dim = pixU.dim) (hsame : v * s.scale = v' * s'.scale) :
+    arrayIndexScaleOnly k inU outU pixU (.qty v s) = arrayIndexScaleOnly k inU outU pixU (.qty v' s') := by
+  rw [arrayIndexScaleOnly_eq k v s inU outU pixU hd hp, arrayIndexScaleOnly_eq k v' s' inU outU pixU hd' hp]
+  have : k * v * (outU.scale * s.scale / inU.scale) = k * v' * (outU.scale * s'.scale / inU.scale) := by
+    have h1 : k * v * (outU.scale * s.scale / inU.scale) = k * (v * s.scale) * outU.scale / inU.scale := by ring
+    have h2 : k * v' * (outU.scale * s'.scale / inU.scale) = k * (v' * s'.scale) * outU.scale / inU.scale := by ring
+    rw [h1, h2, hsame]
+  rw [this]
+
+/-- and it is the index of the unit-free twin: the world value in the transform's unit times the factor, rounded -/
+theorem array_index_matches_twin (k v : Rat) (inU outU : U) (hin : inU.scale ≠ 0) (hout : outU.scale ≠ 0) :
+    arrayIndexScaleOnly k inU outU outU (.qty v inU) = .ok ((k * v + 1 / 2).floor) := by
+  rw [arrayIndexScaleOnly_eq k v inU inU outU outU rfl rfl]
+  have : k * v * (outU.scale * inU.scale / inU.scale) / outU.scale = k * v := by field_simp
+  rw [this]
+
+/-- rounding the raw magnitude instead (no conversion to the frame unit) depends on the spelling: a frequency axis whose
+transform works in MHz, asked in Hz - pixel 50.375 comes back as index 50375000 -/
+example :
+    let hz : U := ⟨2, 1⟩; let mhz : U := ⟨2, 1000000⟩; let pix : U := ⟨0, 1⟩
+    arrayIndexScaleOnly (1 / 2) mhz pix pix (.qty 100750000 hz) = .ok 50 ∧
+    arrayIndexScaleOnly (1 / 2) mhz pix pix (.qty (403 / 4) mhz) = .ok 50 ∧
+    arrayIndexScaleOnlyRaw (1 / 2) mhz pix (.qty 100750000 hz) = .ok 50375000 ∧
+    arrayIndexScaleOnlyRaw (1 / 2) mhz pix (.qty (403 / 4) mhz) = .ok 50 := by decide +kernel
 
 end Gwcs.Units
